@@ -192,6 +192,8 @@ def run_case(spec_msgs, lead, chunk):
     fd_counter = [100]
     for kind, nf in spec_msgs:
         fds = [fd_counter[0] + i for i in range(nf)]
+        if nf >= 2 and (fd_counter[0] // 10) % 3 == 0:
+            fds[-1] = fds[0]                 # the same descriptor passed for two arguments: still one transmitted entry per argument
         fd_counter[0] += 10
         # descriptors travel as separate 'h' arguments or, every other time, as ONE array argument 'ah': the number of
         # descriptors of a message is not the number of 'h' codes in its signature
